@@ -740,11 +740,14 @@ def validator_table(F, rep):
     tb = Terms(F, v, inline_depth=0)
     # EXH: a switch on the discriminant of Operation with `otherwise` unreachable
     exh = False
-    for i, t in v.terms_of_kind("switch"):
-        cond = tb.operand(t["discr"])
-        if isinstance(cond, tuple) and cond[0] == "discr" and "operation" in show(cond):
-            if v.term(t["otherwise"])["k"] == "unreachable" and len(t["targets"]) >= 7:
-                exh = True
+    from rules.c08 import _R
+    for xb in _R(F).region(v, depth=2).bodies.values():          # the match may sit in a helper (the table of checks)
+        xtb = tb if xb.id == v.id else Terms(F, xb, inline_depth=0)
+        for i, t in xb.terms_of_kind("switch"):
+            cond = xtb.operand(t["discr"])
+            if isinstance(cond, tuple) and cond[0] == "discr" and ("operation" in show(cond) or "Operation<" in " ".join(xb.local_ty(k + 1) for k in range(xb.argc))):
+                if xb.term(t["otherwise"])["k"] == "unreachable" and len(t["targets"]) >= 7:
+                    exh = True
     rep.ob("R5", "validate:exhaustive-match", exh,
            "match on Operation lists all variants (no wildcard arm)" if exh else
            "validator's match on Operation has a wildcard/default arm or fewer than 7 arms: a variant can be skipped silently",
@@ -762,6 +765,14 @@ def validator_table(F, rep):
                 vf = _variant_field(conv(subj))
                 if vf and vf[1]:
                     got.setdefault(vf, set()).update(classes)
+    table_note = None
+    if not got:
+        # the validator may be written as data: a table of tagged checks per variant and one judge (lib/valtable.py)
+        import valtable
+        res = valtable.tagged_table(F, v, _variant_field)
+        if res is not None:
+            got, table_note = res
+            rep.note("C15-R5 read from a table-driven validator: " + table_note)
     # "exactly when": nothing else may stand between a line and its field checks. Every guard on the way to an error push —
     # in the helper and at each call site up to the validator — must be the loop, the variant switch or a sign test; a check
     # that is only reached when, say, the ticker was bought before lets a malformed first SELL through (seeded change C15-s3)
